@@ -186,7 +186,7 @@ def check(pid, tier, seed):
                 races[key]["count"] += 1
     for key, info in races.items():
         verdict.violation("race: %s <-> %s" % key, {"occurrences": info["count"], "threads": info["threads"]},
-                          {"component": info["component"], "cfg": info["cfg"], "sites": list(key)})
+                          {"component": info["component"], "xid": info["id"], "cfg": info["cfg"], "sites": list(key)})
     log("[%s] %d controlled executions with access instrumentation, %d distinct tulz race pairs" % (pid, total, len(races)))
     cov = {"states": sum(m["distinct_states"] for m in mcs), "transitions": sum(m["states_generated"] for m in mcs),
            "traces_validated_against_impl": total,
@@ -199,3 +199,12 @@ def check(pid, tier, seed):
     rc = verdict.finish()
     common.write_evidence(pid, tier, seed, "model_checking", cov, ASSUMPTIONS, time.time() - t0, len(verdict.violations))
     return rc
+
+
+def all_harnesses():
+    return {e.name: e for e in build_all().values()}
+
+
+def replay(pid, path):
+    import sys
+    return common.replay(pid, path, sys.modules[__name__])
